@@ -271,8 +271,10 @@ class Continuous(AgentSchedulingComponent):
                     if gpu_occ == rpc.DOWN:
                         continue
 
+                    # shares are floats: 5 * 0.2 must fit one GPU (1 - 0.8 < 0.2)
                     if gpus_per_slot <= rpc.BUSY - gpu_occ \
-                                                 - gpu_used.get(gpu_idx, 0.0):
+                                                 - gpu_used.get(gpu_idx, 0.0) \
+                                                 + 1e-9:
                         slot['gpus'].append(RO(index=gpu_idx,
                                                occupation=gpus_per_slot))
                         gpu_used[gpu_idx] = gpu_used.get(gpu_idx, 0.0) \
